@@ -215,4 +215,196 @@ theorem ginv_after {c : Cfg} {rank : Nat → Nat} (hc : SlotOK c rank) {s s' : S
       · split at hs <;> simp at hs <;> subst hs <;> refine ⟨g, ?_⟩ <;> gok_all hl h he t
       · simp at hs
 
+set_option maxHeartbeats 4000000 in
+theorem ginv_step {c : Cfg} {rank : Nat → Nat} (hc : SlotOK c rank) {s s' : St} {t : Tid} {ev : Ev}
+    (hl : LInv c s) (hsi : SInv c rank s) (hg : GInv c s) (hs : step c s t = some (s', ev)) : GInv c s' := by
+  have he := step_effect hl hs
+  cases hpc : s.pc t with
+  | acq k =>
+    rcases step_acq hpc hs with ⟨hlk, rfl⟩ | ⟨hlk, ha⟩
+    · obtain ⟨g, h⟩ := hg
+      have hmy : ∀ l, s.own l = some t → holds (s.pc t) l := fun l => hl.ow1 l t
+      obtain ⟨hg4, hsb1, hsb2⟩ := h.loc t
+      simp only [hpc, sift, reduceCtorEq, false_implies, implies_true] at hg4 hsb1 hsb2
+      refine ⟨g, ?_⟩; gok_all hl h he t
+    · exact ginv_after hc hl hsi hg he hpc hlk ha
+  | spin k =>
+    obtain ⟨g, h⟩ := hg
+    obtain ⟨hg4, hsb1, hsb2⟩ := h.loc t
+    simp only [hpc, sift, reduceCtorEq, false_implies, implies_true] at hg4 hsb1 hsb2
+    simp only [step, hpc] at hs
+    simp at hs; obtain ⟨rfl, -⟩ := hs
+    refine ⟨g, ?_⟩
+    cases hlk : s.lk k.lock <;> simp only [hlk, Bool.false_eq_true, ↓reduceIte] at he ⊢ <;> gok_all hl h he t
+  | pUnlSz v i =>
+    obtain ⟨g, h⟩ := hg
+    have hmine : ∀ l, holds (s.pc t) l → s.own l = some t := fun l => hl.ow2 l t
+    have hwf := hl.wfp t
+    have hempty := fresh_slot_empty hc hl hsi hpc
+    have hch := fresh_children_empty hc hl hsi hpc
+    simp only [hpc, holds, wf, forall_eq_or_imp, forall_eq] at hmine hwf
+    simp only [step, hpc] at hs
+    simp at hs; obtain ⟨rfl, -⟩ := hs
+    refine ⟨upd g i (gUnder g i (prio v)), ?_⟩
+    gok_new hl h he t
+  | oUnlBot b pv =>
+    obtain ⟨g, h⟩ := hg
+    have hmine : ∀ l, holds (s.pc t) l → s.own l = some t := fun l => hl.ow2 l t
+    have hwf := hl.wfp t
+    have hhv := (hsi.loc t).hv
+    have hte2 := hsi.te2
+    simp only [hpc, holds, wf, forall_eq_or_imp, forall_eq, carries, heldOf, forall_const] at hmine hwf hhv
+    obtain ⟨w, rfl⟩ : ∃ w, pv = some w := by
+      cases pv with
+      | none => exact absurd rfl hhv
+      | some w => exact ⟨w, rfl⟩
+    simp only [step, hpc] at hs
+    split at hs <;> simp at hs <;> obtain ⟨rfl, -⟩ := hs
+    · refine ⟨g, ?_⟩; gok_all hl h he t
+    · rename_i hne1
+      obtain ⟨v1, hv1⟩ : ∃ v1, s.val 1 = some v1 := by
+        cases hv : s.val 1 with
+        | none => exact absurd (hte2 1 hv) hne1
+        | some v => exact ⟨v, rfl⟩
+      unfold popLoop at he ⊢
+      by_cases hcap : 2 * 1 < c.cap + 1
+      · simp only [hcap, ↓reduceIte] at he ⊢
+        refine ⟨upd g 1 (imax (prio w) (g 1)), ?_⟩
+        gok_new hl h he t
+      · simp only [hcap, ↓reduceIte] at he ⊢
+        refine ⟨upd g 1 (prio w), ?_⟩
+        gok_new hl h he t
+  | dUnlSwap par ch pv =>
+    obtain ⟨g, h⟩ := hg
+    have hmine : ∀ l, holds (s.pc t) l → s.own l = some t := fun l => hl.ow2 l t
+    have hwf := hl.wfp t
+    have hte2 := hsi.te2
+    have hne := (hsi.loc t).ne
+    obtain ⟨hg4, -, -⟩ := h.loc t
+    simp only [hpc, holds, wf, forall_eq_or_imp, forall_eq, nonE, sift, Option.some.injEq] at hmine hwf hne hg4
+    obtain ⟨vc, hvc⟩ : ∃ vc, s.val ch = some vc := by
+      cases hv : s.val ch with
+      | none => exact absurd (hte2 ch hv) hne.2
+      | some v => exact ⟨v, rfl⟩
+    simp only [step, hpc] at hs
+    simp at hs; obtain ⟨rfl, -⟩ := hs
+    unfold popLoop at he ⊢
+    by_cases hcap : 2 * ch < c.cap + 1
+    · simp only [hcap, ↓reduceIte] at he ⊢
+      refine ⟨g, ?_⟩; gok_all hl h he t
+    · simp only [hcap, ↓reduceIte] at he ⊢
+      refine ⟨upd g ch (prio vc), ?_⟩
+      gok_new hl h he t
+  | dUnlLeft par ch pv =>
+    obtain ⟨g, h⟩ := hg
+    have hmine : ∀ l, holds (s.pc t) l → s.own l = some t := fun l => hl.ow2 l t
+    have hwf := hl.wfp t
+    have hne := (hsi.loc t).ne
+    obtain ⟨hg4, hsb1, -⟩ := h.loc t
+    simp only [hpc, holds, wf, forall_eq_or_imp, forall_eq, nonE, sift, Option.some.injEq] at hmine hwf hne hg4
+    simp only [step, hpc, Option.map_eq_some_iff, Prod.mk.injEq] at hs
+    obtain ⟨s1, h1, rfl, -⟩ := hs
+    unfold dCompare at h1
+    split at h1
+    · rename_i vc vp hvc hvp
+      simp only [rel] at hvc hvp
+      have hgch : g (ch + 1) ≤ prio vc := by
+        cases htc : s.tag (ch + 1) with
+        | empty => exact absurd htc hne.2.2
+        | avail => exact Int.le_of_eq (h.g2b (ch + 1) t vc (by omega) htc hmine.2.2 (by simp [hpc, sift]; omega) hvc)
+        | own t2 => exact h.g3 (ch + 1) t2 vc htc hvc
+      have hgpar : g (ch + 1) ≤ g par := by
+        have := h.g1 (ch + 1) (by omega) hwf.2.2 hne.2.2
+        rwa [show (ch + 1) / 2 = par by omega] at this
+      have hg4' : prio vp ≤ g par := hg4 par vp rfl hvp
+      obtain ⟨vl, hvl⟩ : ∃ vl, s.val ch = some vl := by
+        cases hv : s.val ch with
+        | none => exact absurd (hsi.te2 ch hv) hne.2.1
+        | some v => exact ⟨v, rfl⟩
+      have hsib : prio vl < prio vc := hsb1 par ch pv vl vc hpc hvl hvc
+      have hgl : g ch ≤ prio vl := by
+        cases htc : s.tag ch with
+        | empty => exact absurd htc hne.2.1
+        | avail => exact Int.le_of_eq (h.g2b ch t vl (by omega) htc hmine.2.1 (by simp [hpc, sift]; omega) hvl)
+        | own t2 => exact h.g3 ch t2 vl htc hvl
+      have hglp : g ch ≤ g par := by
+        have := h.g1 ch (by omega) (by omega) hne.2.1
+        rwa [show ch / 2 = par by omega] at this
+      clear hsb1
+      split at h1 <;> simp at h1 <;> subst h1
+      · refine ⟨upd (upd g (ch + 1) (imax (prio vp) (g (ch + 1)))) par (imin (prio vc) (g par)), ?_⟩
+        gok_new hl h he t
+      · refine ⟨upd g par (prio vp), ?_⟩
+        gok_new hl h he t
+    · simp at h1
+  | dUnlRight par ch pv =>
+    obtain ⟨g, h⟩ := hg
+    have hmine : ∀ l, holds (s.pc t) l → s.own l = some t := fun l => hl.ow2 l t
+    have hwf := hl.wfp t
+    have hne := (hsi.loc t).ne
+    obtain ⟨hg4, -, hsb2⟩ := h.loc t
+    simp only [hpc, holds, wf, forall_eq_or_imp, forall_eq, nonE, sift, Option.some.injEq] at hmine hwf hne hg4
+    simp only [step, hpc, Option.map_eq_some_iff, Prod.mk.injEq] at hs
+    obtain ⟨s1, h1, rfl, -⟩ := hs
+    unfold dCompare at h1
+    split at h1
+    · rename_i vc vp hvc hvp
+      simp only [rel] at hvc hvp
+      have hgch : g ch ≤ prio vc := by
+        cases htc : s.tag ch with
+        | empty => exact absurd htc hne.2
+        | avail => exact Int.le_of_eq (h.g2b ch t vc (by omega) htc hmine.2.1 (by simp [hpc, sift]; omega) hvc)
+        | own t2 => exact h.g3 ch t2 vc htc hvc
+      have hgpar : g ch ≤ g par := by
+        have := h.g1 ch (by omega) (by omega) hne.2
+        rwa [show ch / 2 = par by omega] at this
+      have hg4' : prio vp ≤ g par := hg4 par vp rfl hvp
+      have hsibE : s.tag (ch + 1) = .empty ∨ g (ch + 1) ≤ prio vc := by
+        cases htc : s.tag (ch + 1) with
+        | empty => exact Or.inl rfl
+        | avail =>
+          right
+          cases hv : s.val (ch + 1) with
+          | none => have := hsi.te2 _ hv; rw [htc] at this; cases this
+          | some vr =>
+            have := h.g2b (ch + 1) t vr (by omega) htc hmine.2.2 (by simp [hpc, sift]; omega) hv
+            have := hsb2 par ch pv vc vr hpc hvc hv
+            omega
+        | own t2 =>
+          right
+          cases hv : s.val (ch + 1) with
+          | none => have := hsi.te2 _ hv; rw [htc] at this; cases this
+          | some vr =>
+            have := h.g3 (ch + 1) t2 vr htc hv
+            have := hsb2 par ch pv vc vr hpc hvc hv
+            omega
+      have hgrp : g (ch + 1) ≤ g par ∨ s.tag (ch + 1) = .empty := by
+        by_cases hte : s.tag (ch + 1) = .empty
+        · exact Or.inr hte
+        · left
+          have := h.g1 (ch + 1) (by omega) hwf.2.2 hte
+          rwa [show (ch + 1) / 2 = par by omega] at this
+      clear hsb2
+      split at h1 <;> simp at h1 <;> subst h1
+      · refine ⟨upd (upd g ch (imax (prio vp) (g ch))) par (imin (prio vc) (g par)), ?_⟩
+        gok_new hl h he t
+      · refine ⟨upd g par (prio vp), ?_⟩
+        gok_new hl h he t
+    · simp at h1
+  | idle => simp [step, hpc] at hs
+  | pFail => simp [step, hpc] at hs
+  | pOk => simp [step, hpc] at hs
+  | oFail => simp [step, hpc] at hs
+  | oDone pv => simp [step, hpc] at hs
+  | _ =>
+    obtain ⟨g, h⟩ := hg
+    have hmine : ∀ l, holds (s.pc t) l → s.own l = some t := fun l => hl.ow2 l t
+    have hmy : ∀ l, s.own l = some t → holds (s.pc t) l := fun l => hl.ow1 l t
+    have hwf := hl.wfp t
+    obtain ⟨hg4, hsb1, hsb2⟩ := h.loc t
+    simp only [hpc, holds, wf, forall_eq_or_imp, forall_eq, sift, reduceCtorEq, false_implies, implies_true] at hmine hmy hwf hg4 hsb1 hsb2
+    simp only [step, hpc] at hs
+    simp at hs; obtain ⟨rfl, -⟩ := hs
+    refine ⟨g, ?_⟩; gok_all hl h he t
+
 end CdsVerif.Algo.MSPQ
